@@ -2,6 +2,7 @@
    Assumption on the external codec (codec_consistent): the timestamp (v1: block number) it extracts from a report
    is the one the report was built with; the threaded run below hands the emitted timestamp to the next round. *)
 From DS Require Import Base Sort MercuryAgg Config MercuryReport MercuryReportProofs.
+From DS Require MercuryObserve MercObserveProofs.
 
 (* with a previous report: start exactly one past its end (no 32-bit wrap: repair B2), never after the new end *)
 Theorem C09_v234_chain_step : forall ver c prev replen obs rf pts,
@@ -33,6 +34,35 @@ Proof. exact v234_decline_or_report. Qed.
 (* the pre-repair arithmetic wrapped: previous timestamp 2^32-1 gave validFrom 0 (B2); MaxInt64 + 1 as agreed
    max-finalized value gave validFrom 0 (B8) — witnesses of the modular arithmetic *)
 Example C09_prefix_wrap_refuted : (max_uint32 + 1) mod 2 ^ 32 = 0 /\ wrap64 (2 ^ 63 - 1 + 1) mod 2 ^ 32 = 0.
+Proof. vm_compute. split; reflexivity. Qed.
+
+(* the bootstrap end to end (MercObserveProofs): senders are correct nodes - the model of MercuryPlugin.Observation of what
+   their data source returned, marshalled - or arbitrary bytes, at most f of the latter; with no previous report the validity
+   start of an emitted report is one past a max-finalized timestamp that some correct node's data source returned, or, when
+   that agreed value is negative ("none exists"), the report's own timestamp *)
+Theorem C09_bootstrap_traces_to_a_correct_data_source : forall ver c base ss replen rf,
+  ver = 2 \/ ver = 3 \/ ver = 4 -> MercObserveProofs.senders_ok ss ->
+  (length (filter (fun s => negb (MercObserveProofs.is_correct s)) ss) <= mc_f c)%nat ->
+  report234 ver c None replen (MercObserveProofs.decoded ver base ss) = Ok (true, Some rf) ->
+  exists n d m, In (MercObserveProofs.Correct n d) ss /\ MercuryObserve.ds_mfts d = Some m /\
+                rf_valid_from rf = if m <? 0 then rf_ts rf else m + 1.
+Proof. exact MercObserveProofs.bootstrap_valid_from_traces_to_a_correct_data_source. Qed.
+Print Assumptions C09_bootstrap_traces_to_a_correct_data_source.
+
+(* non-vacuity: f = 1; three correct v3 nodes whose data sources return max-finalized 5 (prices around 1000) and one faulty
+   sender of garbage: the report is emitted with validFrom = 6 *)
+Definition C09_nv_ds (bm : Z) : MercuryObserve.ds234 :=
+  {| MercuryObserve.ds_bm := Some bm; MercuryObserve.ds_bid := Some (bm - 1); MercuryObserve.ds_ask := Some (bm + 1);
+     MercuryObserve.ds_mfts := Some 5; MercuryObserve.ds_link := Some (7 * 10 ^ 18); MercuryObserve.ds_native := Some (-1);
+     MercuryObserve.ds_status := None |}.
+Definition C09_nv_senders : list MercObserveProofs.sender :=
+  [MercObserveProofs.Correct 1700000000 (C09_nv_ds 1000); MercObserveProofs.Faulty [255; 1];
+   MercObserveProofs.Correct 1700000001 (C09_nv_ds 1002); MercObserveProofs.Correct 1700000002 (C09_nv_ds 1001)].
+Example C09_nv_bootstrap :
+  match report234 3 {| mc_f := 1; mc_min := 0; mc_max := 10 ^ 6; mc_window := 3600; mc_maxlen := 1000 |} None (fun _ => Ok 100%nat)
+          (MercObserveProofs.decoded 3 (Decimal.mkdec 1 (-3)) C09_nv_senders) with
+  | Ok (true, Some rf) => rf_valid_from rf = 6 /\ rf_ts rf = 1700000001
+  | _ => False end.
 Proof. vm_compute. split; reflexivity. Qed.
 
 (* non-vacuity: a threaded run with a stall (second round declines: timestamp 101 < 102) *)
